@@ -25,7 +25,7 @@ type LockSpec struct {
 type lockState int
 
 const (
-	lsUnknown  lockState = iota // not yet computed (top)
+	lsUnknown lockState = iota // not yet computed (top)
 	lsUnlocked
 	lsRLocked
 	lsLocked
